@@ -215,6 +215,9 @@ def run(ctx):
         obs["events"] = r2["events"][:120]
         ctx.violation(key_of(c, r2, rec2), "concurrent %s run is not a behaviour of the pipeline model / a sensor fired: %s" % (c["kind"], key_of(c, r2, rec2)),
                       {"kind": "c08", "case": c, "observed": obs, "rejected_event": rec2})
+    # spec -> code: TLC behaviours forced onto the goroutines through the blocking hook
+    from checks import gatereplay
+    gatereplay.run(ctx, b, d, rnd)
     ctx.trusted += ["Go race detector, pool poisoning through the verif pool hook, goroutine stack scan, watchdog",
                     "verif pipeline hooks (H2) as the source of the event log"]
     ctx.assumptions += ["the code's schedules are sampled (seeded perturbation at hook sites), the model's are explored exhaustively",
